@@ -235,6 +235,43 @@ func main() {
 		jobs = append(jobs, job{"/* block\r\r\ncomment */\n" + base, d.Label, "canonical", "block-comment-cr-cr-lf"})
 		jobs = append(jobs, job{base + "\n\n\n// far trailing comment", d.Label, "canonical", "comment-at-eof-no-newline"})
 	}
+	// what follows a commented definition: the formatter decides line breaks from the previous and the next token
+	followers := []struct{ name, text string }{
+		{"import", "import \"zq_follow.bop\"\n"}, {"const", "const int32 zqFollow = 7;\n"}, {"struct", "struct ZqFollow {\n    int32 x;\n}\n"},
+		{"flags-enum", "[flags]\nenum ZqFollowF {\n    A = 1;\n}\n"}, {"opcode-message", "[opcode(9)]\nmessage ZqFollowM {\n    1 -> int32 x;\n}\n"}, {"line-comment", "// another comment\n"}}
+	for _, d := range a0 {
+		base := textgen.Render([]*textgen.Def{d}, textgen.Layouts[0])
+		// the last ";" or "}" of the definition gets the end-of-line comment (consts and one-line definitions end in ";")
+		last := strings.LastIndexAny(strings.TrimRight(base, "\n"), ";}")
+		if last < 0 {
+			last = len(strings.TrimRight(base, "\n")) - 1 // imports end with the path
+		}
+		for _, fo := range followers {
+			for _, pl := range []struct{ name, text string }{
+				{"eol-comment-at-end", base[:last+1] + " // eol comment\n"}, {"eol-block-comment-at-end", base[:last+1] + " /* eol block */\n"},
+				{"comment-after", base + "// trailing comment\n"}, {"block-comment-after", base + "/* trailing block */\n"}, {"plain", base}} {
+				jobs = append(jobs, job{pl.text + fo.text, d.Label + ">" + fo.name, "canonical", pl.name + "-then-" + fo.name})
+				jobs = append(jobs, job{fo.text + pl.text, fo.name + ">" + d.Label, "canonical", fo.name + "-then-" + pl.name})
+			}
+		}
+	}
+	// comments longer than any reader buffer (bufio: 4096, bufio.Scanner: 65536), before, inside and between definitions
+	for di, d := range a0 {
+		base := textgen.Render([]*textgen.Def{d}, textgen.Layouts[0])
+		next := textgen.Render([]*textgen.Def{a1[0], a2[1]}, textgen.Layouts[0])
+		for _, n := range []int{4000, 4093, 4094, 4095, 4096, 4097, 5000, 8200, 65534, 65536, 70000} {
+			if n > 5000 && di > 8 {
+				continue
+			}
+			long := "// " + strings.Repeat("c", n-3) + "\n"
+			jobs = append(jobs, job{long + base + next, d.Label, "canonical", fmt.Sprintf("long-comment-%d-before", n)})
+			jobs = append(jobs, job{base + long + next, d.Label, "canonical", fmt.Sprintf("long-comment-%d-between", n)})
+			if i := strings.Index(base, ";\n"); i >= 0 && strings.Contains(base, "{") {
+				jobs = append(jobs, job{base[:i+2] + long + base[i+2:] + next, d.Label, "canonical", fmt.Sprintf("long-comment-%d-inside", n)})
+			}
+			jobs = append(jobs, job{"/* " + strings.Repeat("b", n) + " */\n" + base + next, d.Label, "canonical", fmt.Sprintf("long-block-comment-%d-before", n)})
+		}
+	}
 	// the repository's own schemas
 	dir := vlib.RepoDir() + "/testdata/base"
 	ents, _ := os.ReadDir(dir)
